@@ -712,10 +712,13 @@ FLEET['G27'] = dict(
         ('mul', T('custom', '', 'op_multiplicative', prec=2, assoc='ltor', typed=True)),
         ('pow', T('custom', '', 'op_power', prec=3, assoc='rtol', typed='sv')),
     ],
-    nterms=['expr'],
-    root='expr',
+    # (two nonterminals, rules written expression-first although nterms(...) lists stmt first: per-rule data looked up while
+    #  conflicts are resolved must use the rule's own number - S119)
+    nterms=['stmt', 'expr'],
+    root='stmt',
     rules=[
         ('expr', ['expr', 'plus', 'expr'], 'plain'),
+        ('stmt', ['expr'], 'plain'),
         ('expr', ['num'], 'plain'),
         ('expr', ['expr', 'mul', 'expr'], 'ctx'),
         ('expr', ['expr', 'pow', 'expr'], 'plain'),
